@@ -1,7 +1,9 @@
 #!/bin/sh
-# every thorough check once, sequentially; prints one line per property
+# thorough checks, sequentially; prints one line per property. Usage: tools/run_thorough.sh [NN ...]
 cd /verif
-for n in 02 03 18 17 12 13 11 15 10 08 09 06 07 04 05 14 16 19 20 01; do
+LIST="$@"
+[ -z "$LIST" ] && LIST="02 03 18 17 12 13 11 15 10 08 09 06 07 04 05 14 16 19 20 01"
+for n in $LIST; do
   t0=$(date +%s)
   out=$(./check C$n thorough 2>&1); rc=$?
   t1=$(date +%s)
